@@ -195,6 +195,19 @@ def repo_frame(tb):
     return found
 
 
+def workdir(prefix):
+    """An empty scratch directory whose PATH IS THE SAME for every case of this process (unlike mkdtemp): file names recur
+    from case to case, so anything the package remembers about a path between calls (a cache keyed on the file name)
+    meets a file with other content.  Such a violation does not reproduce from the case alone; the runner then
+    re-executes it after its predecessor and stores the two-call history."""
+    import shutil
+    import tempfile
+    base = os.path.join(tempfile.gettempdir(), "work_%s%d" % (prefix, os.getpid()))
+    shutil.rmtree(base, ignore_errors=True)
+    os.makedirs(base)
+    return base
+
+
 class HarnessError(Exception):
     pass
 
